@@ -72,7 +72,18 @@ func (s *Netceptor) listen(ctx context.Context, service string, tlscfg *tls.Conf
 		if tlscfg.ClientAuth == tls.RequireAndVerifyClientCert {
 			tlscfg.GetConfigForClient = func(hi *tls.ClientHelloInfo) (*tls.Config, error) {
 				clientTLSCfg := tlscfg.Clone()
-				remoteNode := strings.Split(hi.Conn.RemoteAddr().String(), ":")[0]
+				// The peer address is a netceptor Addr; use its node field.  Splitting the
+				// "node:service" text at the first ':' truncates node IDs that contain ':',
+				// so such a node was checked against another node's name.
+				var remoteNode string
+				if addr, ok := hi.Conn.RemoteAddr().(Addr); ok {
+					remoteNode = addr.node
+				} else {
+					remoteNode = hi.Conn.RemoteAddr().String()
+					if i := strings.LastIndex(remoteNode, ":"); i >= 0 {
+						remoteNode = remoteNode[:i]
+					}
+				}
 				clientTLSCfg.VerifyPeerCertificate = ReceptorVerifyFunc(tlscfg, [][]byte{}, remoteNode, ExpectedHostnameTypeReceptor, VerifyClient, s.Logger)
 
 				return clientTLSCfg, nil
